@@ -32,7 +32,8 @@ CLAIMS = {
         'text': 'Rely/guarantee contracts at atomic-operation granularity on the unique callback word: SetCallbackImpl<false>, ResetImpl, '
                 'SetInlineImpl, SetResultImpl (both transfer modes), Empty/Ready, StoreCallbackImpl, Loop, Step, Noop are extracted from the '
                 'current source and proved per function for every placement of the other role\'s steps (any interleaving under SC); lemma '
-                'jobs prove the invariant stable, the relies closed, and exactly-once delivery of the run token at quiescence.',
+                'jobs prove the invariant stable, the relies closed, and exactly-once delivery of the run token at quiescence. '
+                'Connect (unit connect, six overloads): exactly one of attached / fulfilled right now, decided by the attach attempt or an observation that the Result is there; CallInline only for terminal callbacks.',
         'note': 'Sequentially consistent atomics (orders are C04); one producer and one consumer role as the threading contract states; '
                 'Here/Next overrides are interface contracts proved per override in other units; replay of interleavings on the real code is '
                 'available only for the sequential witnesses.',
@@ -42,7 +43,8 @@ CLAIMS = {
         'text': 'Rely/guarantee contracts on the shared callback stack: push loop (SetCallbackImpl<true>, loop contract over the weak CAS), '
                 'SetInlineImpl<.,true>, the fulfilment walk of SetResultImpl<.,true> over a ghost pool of symbolic length (every registered '
                 'callback run exactly once, in order, after the value is stored; ->next read before the callback runs; three promise '
-                'references dropped, one before the last callback), Empty/Ready.',
+                'references dropped, one before the last callback), Empty/Ready. '
+                'Unit connect (Connect with SharedFuture / SharedPromise), and in unit handles: SharedFutureBase Get / Touch (moved only by the provably last rvalue holder, GetRef() == 1; const forms never move), Detach, SharedPromise Set / destructor, Share x4, Split; Core::Impl / Call record move vs const read (a step never moves the value out of a SharedFuture).',
         'note': 'SC atomics; the callback list is a ghost pool (node k = pool[k], symbolic length up to 2^40) accessed through a live-node '
                 'accessor; reference-count thresholds of ResultCore::Impl are in unit result_core when present.',
         'design': 'DESIGN.md 6 C06, 5.B, 5.I, A.2',
@@ -77,7 +79,8 @@ CLAIMS = {
                 'SetResultImpl<Shared> (exactly three promise references, one before the last callback, ->next read before the callback runs), '
                 'AtomicCounter::Sub (Delete iff the decrement reached zero), TimedWaiter two-owner release, Retire (move then release once), ResultCore::Impl '
                 'thresholds, Drop core, Promise / Future / Task destructors (release exactly once iff still owned), strand / event walks (no access after '
-                'Call / Drop), WhenAll destructors (every input retired or released exactly once), UniqueJob via the executor contracts.',
+                'Call / Drop), WhenAll destructors (every input retired or released exactly once), UniqueJob via the executor contracts. '
+                'Unit intrusive_ptr: every constructor, assignment, Release, Swap, Reset and the destructor of IntrusivePtr<T> (one handle == one reference; copies take one, moves and NoRefTag transfer, the destructor gives one back iff non-null, assignment takes the new reference before giving back the old one).',
         'note': 'Per-function release-exactly-once and no-use-after-release; quiescent leak-freedom of a whole pipeline is the induction over these per-object '
                 'contracts (meta-argument, stated, not machine-checked); destructors of user functors / payloads and the coroutine frame are outside.',
         'design': 'DESIGN.md 6 C03, 5.E',
@@ -232,7 +235,8 @@ CLAIMS = {
                 '(lock, try_lock, unlock, LockHelper), RecursiveTimedMutex, SharedMutex (lock, try_lock, lock_shared, try_lock_shared, unlock, unlock_shared, '
                 'both helpers), SharedTimedMutex: on return the fiber is the only holder in the requested mode, try / timed success really holds the lock, '
                 'failure only because it was incompatible or the deadline passed, unlock frees and notifies; FiberQueue Wait / timed Wait / NotifyOne, '
-                'ConditionVariable::WaitImpl, Thread::join (returns only after Completed), thread-local proxy keyed by the current fiber.',
+                'ConditionVariable::WaitImpl, Thread::join (returns only after Completed), thread-local proxy keyed by the current fiber. '
+                'Unit sleep_map: the scheduler\'s sleep map (Sleep, SleepPreemptive, WakeUpNeeded; std::map abstracted for one arbitrary key, ordered iteration never skips it): a passed deadline does not block, a sleeper is in the bucket of exactly its wake-up time, the clock wakes exactly the buckets whose time has come (all sleepers, once), a bucket is erased only when nobody sleeps in it, end() is never dereferenced (finding F14, fixed).',
         'note': 'Cooperative scheduling (no preemption between suspension points) is the model; context switching, the scheduler loop and std containers are '
                 'trusted; counters do not wrap. Replay: the real lock types in a FIBER build of the tree under check, 12 seeds of the stock scheduler.',
         'design': 'DESIGN.md 6 C18, 5.D, A.8',
